@@ -128,6 +128,11 @@ def recipe(variant="A"):
     if variant == "A":
         return STEPS, CONTROLS
     if variant == "B":
-        steps = [st for st in STEPS if not (st[0] == "setopt" and (st[1], st[2]) in _B_DROP_OPTS)] + _B_EXTRA
+        # the rule and quality steps are given values LONGER than the hydraulic step will be, and before it is shortened: the stored options do not depend
+        # on the order in which they were assigned, and come back as stored
+        early = [("setopt", "time", "rule_timestep", 2700), ("setopt", "time", "quality_timestep", 3000)]
+        steps_of_time = {("time", "rule_timestep"), ("time", "quality_timestep")}
+        steps = early + [st for st in STEPS if not (st[0] == "setopt" and (st[1], st[2]) in (_B_DROP_OPTS | steps_of_time))] + \
+            [st for st in _B_EXTRA if not (st[0] == "setopt" and (st[1], st[2]) in steps_of_time)]
         return steps, CONTROLS + _B_CONTROLS
     raise ValueError(variant)
